@@ -10,7 +10,9 @@ import (
 
 	"cosmossdk.io/log"
 	storetypes "cosmossdk.io/store/types"
+	"github.com/cosmos/cosmos-sdk/client"
 	addresscodec "github.com/cosmos/cosmos-sdk/codec/address"
+	cryptotypes "github.com/cosmos/cosmos-sdk/crypto/types"
 	"github.com/cosmos/cosmos-sdk/runtime"
 	sdk "github.com/cosmos/cosmos-sdk/types"
 	authtypes "github.com/cosmos/cosmos-sdk/x/auth/types"
@@ -49,6 +51,13 @@ type Env struct {
 	userIdx   map[string]int    // bech32 -> user index
 	addrNames map[string]string // bech32 -> u<i> | S<a> | P<a> | V<a> | pool
 	escUpTo   uint64
+
+	// app mode (`harness apprun`): ops drive the real app through ABCI, see app.go
+	appMode   bool
+	privs     []cryptotypes.PrivKey // signing keys of the users, by user index
+	txConfig  client.TxConfig
+	blockTime time.Time // time of the last `block` op; tx blocks are delivered at this time
+	appBroken string    // non-empty once a FinalizeBlock failed / panicked (state may be partial)
 
 	authority string
 	poolAddr  sdk.AccAddress
@@ -92,6 +101,9 @@ func (e *Env) initUsers() {
 
 // Reset builds a fresh app and everything that hangs off it.
 func (e *Env) Reset() error {
+	if e.appMode {
+		return e.appReset()
+	}
 	a, err := simapp.New(ChainID)
 	if err != nil {
 		return fmt.Errorf("simapp.New: %w", err)
